@@ -290,11 +290,26 @@ pub fn values(eng: &mut Eng) {
     for linked in [false, true] {
         for mask in 0..16u32 {
             let present: Vec<usize> = (0..4).filter(|b| mask & (1 << b) != 0).collect();
-            for (order, base) in weak_orders(present.len()).into_iter().flat_map(|o| [(o.clone(), 10i64), (o.clone(), -12i64), (o, i64::MIN)]) {
-                let mut t = [0i64; 4];
-                for (k, &slot) in present.iter().enumerate() {
-                    t[slot] = base + order[k] as i64 * 5;
+            let mut time_sets: Vec<[i64; 4]> = Vec::new();
+            for order in weak_orders(present.len()) {
+                for base in [10i64, -12i64, i64::MIN] {
+                    let mut t = [0i64; 4];
+                    for (k, &slot) in present.iter().enumerate() {
+                        t[slot] = base + order[k] as i64 * 5;
+                    }
+                    time_sets.push(t);
                 }
+                // the same order with timestamps further apart than i64::MAX
+                let levels = order.iter().max().map(|m| m + 1).unwrap_or(0);
+                for map in extreme_level_maps(levels) {
+                    let mut t = [0i64; 4];
+                    for (k, &slot) in present.iter().enumerate() {
+                        t[slot] = map[order[k]];
+                    }
+                    time_sets.push(t);
+                }
+            }
+            for t in time_sets {
                 eng.executions += 1;
                 eng.states += 1;
                 if linked && present.len() >= 2 {
